@@ -108,10 +108,76 @@ def ledger_order(ty):
     return bool(ORD_ATOM.match(ty))
 
 
-def sort_order_ok(t):
+def _comparator_order(F, t):
+    """`sort_by(|a, b| a.f.cmp(&b.f).then_with(|| a.g.cmp(&b.g)))`: (ok, description) when the comparator is a lexicographic
+    chain of `cmp` calls, each between the same field of the first and of the second parameter (ascending) on types whose
+    natural order is the ledger's; (False, why) when an operand pair is swapped or the compared fields differ; (None, ..) when
+    the comparator has another shape."""
+    cl = [F.fns[c] for c in t.get("fnrefs") or () if c in F.fns]
+    if len(cl) != 1:
+        return None, "custom comparator"
+    C = cl[0]
+    duC = mir.DefUse(C)
+    found = []
+    bodies = [(C, None)]
+    for _, _, st in mir.stmts(C):
+        if st["rv"]["k"] == "agg" and st["rv"].get("closure") in F.fns:
+            bodies.append((F.fns[st["rv"]["closure"]], st["rv"]["ops"]))
+    for B, capt in bodies:
+        duB = mir.DefUse(B)
+        for bi, t2 in mir.calls(B):
+            c2 = t2.get("callee") or ""
+            last = c2.split("::")[-1]
+            if last in ("then", "then_with", "deref", "borrow", "as_ref", "clone"):
+                continue
+            if last not in ("cmp",) or len(t2["args"]) != 2:
+                return None, "custom comparator (calls `%s`)" % last
+            sides = []
+            for a in t2["args"]:
+                side, fld = None, None
+                for o in mir.provenance(B, duB, a):
+                    if o.kind != "arg":
+                        continue
+                    proj = [x for x in o.proj if x.startswith(".") and not x[1:].isdigit()]
+                    if capt is None:
+                        side = {2: "a", 3: "b"}.get(o.local)
+                        fld = tuple(proj)
+                    elif o.local == 1:
+                        idx = [x for x in o.proj if x.startswith(".") and x[1:].isdigit()]
+                        if idx and int(idx[0][1:]) < len(capt):
+                            for oo in mir.provenance(C, duC, capt[int(idx[0][1:])]):
+                                if oo.kind == "arg" and oo.local in (2, 3):
+                                    side = {2: "a", 3: "b"}[oo.local]
+                        fld = tuple(proj)
+                sides.append((side, fld))
+            ty = (t2.get("gargs") or ["?"])[0]
+            found.append((sides, ty, t2["line"]))
+    if not found:
+        return None, "custom comparator"
+    desc = []
+    for sides, ty, line in found:
+        (s1, f1), (s2, f2) = sides
+        if s1 is None or s2 is None:
+            return None, "custom comparator"
+        name = "".join(f1 or ()) or "the element"
+        if f1 != f2:
+            return False, "a comparator that compares `%s` of one element with `%s` of the other" % ("".join(f1 or ()), "".join(f2 or ()))
+        if (s1, s2) == ("b", "a"):
+            return False, "a comparator that orders by `%s` *descending* (operands swapped: b%s.cmp(a%s)), while the ledger numbers the items in ascending order" % (name, name, name)
+        if (s1, s2) != ("a", "b"):
+            return False, "a comparator that compares an element with itself on `%s`" % name
+        if not ledger_order(ty):
+            return False, "a comparator on `%s` of type `%s`, whose natural order is not the ledger's" % (name, ty)
+        desc.append(name)
+    return True, "comparator ascending on %s" % ", then ".join(desc)
+
+
+def sort_order_ok(t, F=None):
     """the order a recognised sort call establishes: (ok, description)"""
     c = (t.get("callee") or "").split("::")[-1]
     g = t.get("gargs") or []
+    if c in ("sort_by", "sort_unstable_by") and F is not None:
+        return _comparator_order(F, t)
     if c in ("sort", "sort_unstable"):
         ty = g[0] if g else "?"
         return ledger_order(ty), "natural order of `%s`" % ty
@@ -134,7 +200,11 @@ def sortedness(F, f, du, cfg, pos_bb, slice_op, depth=0):
         if SORT_RE.search(c) and cfg.dominates(bi, pos_bb):
             so = {repr(o) for o in mir.provenance(f, du, t["args"][0], transparent_extra=("std::ops::DerefMut::deref_mut",))}
             if so & roots:
-                good, what = sort_order_ok(t)
+                good, what = sort_order_ok(t, F)
+                if good is False and what.startswith("a comparator"):
+                    return False, "sorted by %s" % what
+                if good is None:
+                    return False, "sorted with a %s whose order is not established" % what
                 if good is False:
                     return False, "sorted by the %s, which is not the ledger's numeric/bytewise order of the item (a textual rendering orders `#10` before `#2`)" % what
                 return True, "a dominating `%s` on the same vector (%s)" % (c.split("::")[-1], what)
@@ -174,6 +244,17 @@ def sortedness(F, f, du, cfg, pos_bb, slice_op, depth=0):
                 return False, bad
             if sites:
                 return True, "field of %s, which is built only around a sorted list (%d construction site(s) judged)" % (base.split("::")[-1], sites)
+    # (e) the list is a variable a closure captured: judged in the enclosing function, at the place the closure is created
+    if f.get("def_kind") == "Closure" and f.get("owner") in F.fns and depth < 3:
+        ups = [o for o in target if o.kind == "arg" and o.local == 1 and any(x.startswith(".") and x[1:].isdigit() for x in o.proj)]
+        if ups and len(ups) == len(target):
+            own = F.fns[f["owner"]]
+            d_o, c_o = mir.DefUse(own), mir.CFG(own)
+            idx = int([x for x in ups[0].proj if x.startswith(".") and x[1:].isdigit()][0][1:])
+            for bj, sj, st in mir.stmts(own):
+                if st["rv"]["k"] == "agg" and st["rv"].get("closure") == f["path"] and idx < len(st["rv"]["ops"]):
+                    okk, why = sortedness(F, own, d_o, c_o, bj, st["rv"]["ops"][idx], depth + 1)
+                    return okk, why + " (captured by the closure from %s)" % own["path"].split("::")[-1]
     # (c) the slice is a parameter: every caller must pass a sorted slice
     if depth < 2:
         params = [o for o in target if o.kind == "arg"]
